@@ -85,7 +85,11 @@ impl Env {
             recursive: c.recursive,
             num_threads: c.k,
             mode: c.mode.to_txtpp(),
-            verbosity: txtpp::Verbosity::Quiet,
+            verbosity: match c.console {
+                0 => txtpp::Verbosity::Quiet,
+                1 | 3 => txtpp::Verbosity::Normal,
+                _ => txtpp::Verbosity::Verbose,
+            },
             trailing_newline: c.trailing_newline,
         }
     }
@@ -117,7 +121,9 @@ impl Env {
             ..Default::default()
         };
         let limited = c.fsize_limit.map(set_fsize_limit);
+        let console = redirect_stderr(c.console);
         let out = simulate(&self.root, cfg, sched, &opts);
+        restore_stderr(console);
         if limited.is_some() {
             clear_fsize_limit();
         }
@@ -335,5 +341,34 @@ pub fn clear_fsize_limit() {
             rlim_max: cur.rlim_max,
         };
         libc::setrlimit(libc::RLIMIT_FSIZE, &lim);
+    }
+}
+
+/// Console knob: while a non-quiet run is simulated, fd 2 points at /dev/null or at /dev/full
+/// (progress output then fails with ENOSPC on every write). Returns the saved descriptor.
+pub fn redirect_stderr(console: u8) -> Option<i32> {
+    if console == 0 {
+        return None;
+    }
+    let target = if console >= 3 { "/dev/full\0" } else { "/dev/null\0" };
+    unsafe {
+        let saved = libc::dup(2);
+        let fd = libc::open(target.as_ptr() as *const libc::c_char, libc::O_WRONLY);
+        if fd >= 0 {
+            libc::dup2(fd, 2);
+            libc::close(fd);
+        }
+        Some(saved)
+    }
+}
+
+pub fn restore_stderr(saved: Option<i32>) {
+    if let Some(fd) = saved {
+        if fd >= 0 {
+            unsafe {
+                libc::dup2(fd, 2);
+                libc::close(fd);
+            }
+        }
     }
 }
